@@ -382,7 +382,7 @@ def herm(rng, n, dt, definite):
     return {"k": "Dense", "shape": [n, n], "dt": dt, "seed": S.seed(rng), "gen": "herm", "eigs": eigs}
 
 
-def judge_output(ctx, what, Op, preds):
+def judge_output(ctx, what, Op, preds, dense=None):
     """An operator returned by a routine: its own dense matrix must have the properties it reports."""
     rep = reported(Op)
     for r in rep:
@@ -390,7 +390,7 @@ def judge_output(ctx, what, Op, preds):
     if not rep:
         ctx.check("routine-output-annotation-true", True)
         return
-    D = np.asarray(Op.to_dense())
+    D = np.asarray(Op.to_dense()) if dense is None else dense
     if not np.all(np.isfinite(D)):
         ctx.note("routine_output_nonfinite")
         return
@@ -481,17 +481,18 @@ def run_routine(ctx, case):
                 for nm, Op in zip(("U", "Sigma", "V"), out):
                     judge_output(ctx, f"svd[{type(alg).__name__}].{nm}", Op, {"input": shp, "k<min": k < min(m, n)})
         elif r == "unary":
-            A = cola.PSD(B.build(herm(rng, n, dt, True)))
+            hs = herm(rng, n, dt, True)
+            if rng.random() < 0.5:
+                hs["eigs"] = [float(x) for x in np.linspace(0.2, 2.5, n)]  # positive definite, but log / -x are negative on part of it
+            A = cola.PSD(B.build(hs))
             fn = S.pick(rng, [L.exp, L.sqrt, L.log, L.isqrt])
-            alg = S.pick(rng, [L.Eigh(), L.Lanczos(max_iters=n + 1, tol=1e-12), L.Auto()])
+            alg = S.pick(rng, [L.Eigh(), L.Lanczos(max_iters=n + 1, tol=1e-12), L.Lanczos(max_iters=n + 1, tol=1e-12), L.Arnoldi(max_iters=n + 1, tol=1e-12), L.Auto()])
             F = fn(A, alg)
-            if type(F).__name__.startswith("LanczosUnary"):
-                # the declared SelfAdjoint of the lazy Krylov operator is checked on its action
+            if type(F).__name__.startswith(("LanczosUnary", "ArnoldiUnary")):
+                # a lazy Krylov operator: everything it reports is judged on its action on the identity
                 X = np.eye(n, dtype=P.DT[dt])
                 D = np.asarray(F @ X)
-                ok = np.abs(D - D.conj().T).max() <= 1e-6 * max(1.0, np.abs(D).max())
-                ctx.check("routine-output-annotation-true", bool(ok), site="LanczosUnary", preds={"false": "SelfAdjoint"},
-                          detail={"asym": float(np.abs(D - D.conj().T).max())})
+                judge_output(ctx, type(F).__name__.split("[")[0], F, {"fn": fn.__name__, "spectrum_below_one": hs["eigs"][0] < 1}, dense=D)
             else:
                 judge_output(ctx, "unary.result", F, {})
         elif r == "inv_unitary":
